@@ -2,7 +2,11 @@
 (* C19, code -> spec: histories with a fault.  Events:                         *)
 (*   reset                 new lists, new engines (a faulted one and a twin)   *)
 (*   fault kind            the backing lists of the faulted engine become      *)
-(*                         unreadable (kind: "close" | "closed-fd")            *)
+(*                         unreadable (kind: "close" | "closed-fd" |           *)
+(*                         "transient")                                        *)
+(*   recover               a transient fault is over: retrievals work again,   *)
+(*                         and from here on both engines agree again - nothing *)
+(*                         that failed in between may stick                    *)
 (*   query q got gotnet twin twinnet ref                                        *)
 (*        got / gotnet : every rule (network and hosts) / the matching network  *)
 (*        rules the FAULTED engine returned (texts; or the marker "PANIC");     *)
@@ -26,13 +30,14 @@ Step ==
     /\ l < Len(Trace) /\ l' = l + 1
     /\ CASE Ev.ev = "reset" -> faulted' = FALSE /\ seen' = {}
          [] Ev.ev = "fault" -> faulted' = TRUE /\ seen' = seen
+         [] Ev.ev = "recover" -> faulted' = FALSE /\ seen' = seen      \* a transient fault is over: the lists are readable again
          [] Ev.ev = "query" ->
               LET got == SetOf(Ev.got)   gotnet == SetOf(Ev.gotnet)
                   twin == SetOf(Ev.twin) twinnet == SetOf(Ev.twinnet)
                   ref == SetOf(Ev.ref)
                   why == IF "PANIC" \in got THEN "no crash"
                          ELSE IF ~(got \subseteq ref) THEN "every returned rule truly matches"
-                         ELSE IF ~faulted /\ (got # twin \/ gotnet # twinnet) THEN "equal before the fault"
+                         ELSE IF ~faulted /\ (got # twin \/ gotnet # twinnet) THEN "equal while the lists are readable"
                          ELSE IF ~(gotnet \subseteq twinnet) THEN "subset of the fault-free answer"
                          ELSE IF ~((seen \cap twin) \subseteq got) THEN "materialised rules still served"
                          ELSE "ok"
